@@ -141,8 +141,9 @@ pub fn run(ctx: &mut Ctx) {
         let uni = Universe::new(&mut rng, 1);
         let other = Universe::new(&mut rng, 2); // neighbouring document in the same redb store
         let ns = uni.ns.id();
-        let na = rng.range(0, 24);
-        let nb = rng.range(0, 24);
+        let max_n = if ctx.is_quick() { 24 } else { 56 };
+        let na = rng.range(0, max_n);
+        let nb = rng.range(0, max_n);
         let set_a = entry_set(&uni, &mut rng, na);
         let mut set_b = entry_set(&uni, &mut rng, nb);
         for e in &set_a {
